@@ -147,6 +147,7 @@ pub fn c09(opts: &Opts, out: &mut Out) {
                 // some configurations with degenerate masks / seeds: all zero, one zero component, all equal, seed 0 or 1
                 match (n.trailing_zeros() as usize + 2 * t + rep) % 7 {
                     1 => inst.blindings[0] = vec![Scalar::ZERO; t],
+                    2 => inst.blindings[0][0] = Scalar::ZERO,
                     3 => inst.blindings[0][t - 1] = Scalar::ZERO,
                     5 => inst.blindings[0] = vec![Scalar::from(9u8); t],
                     6 => inst.seed = Some(if t % 2 == 0 { Scalar::ZERO } else { Scalar::ONE }),
